@@ -24,6 +24,13 @@ CHUNK = 2
 
 def cases(tier):
     cs = parsefam.parse_cases(tier, jinja=True)
+    # tree-shape and indent-balance clauses on (nearly) EVERY dialect fixture: an Indent without a Dedent is a
+    # property of one grammar construct, and the larger fixtures are where the rarer constructs live
+    lo, hi = (400, 4000) if tier == "quick" else (2000, 10**9)
+    small = {f[1] for f in corpus.fixtures(lo)}
+    big = [f[1] for f in corpus.fixtures(hi) if f[1] not in small]
+    for i in range(0, len(big), 4):
+        cs.append({"k": "fixtures", "ids": big[i : i + 4]})
     return cs
 
 
